@@ -1512,14 +1512,19 @@ class LinFamily:
         lines = [json.loads(x) for x in open(trace)]
         if self.prop == "C07":
             mism = [m for m in mism if any(c.startswith("get") or c.startswith("linget") for c in m[2])]
+        elif self.prop == "C03":
+            mism = [m for m in mism if any(c.startswith("ref") or c.startswith("linref") for c in m[2])]
         elif self.prop in ("C01", "C08"):
-            mism = [m for m in mism if not any(c.startswith("get") for c in m[2])]
+            mism = [m for m in mism if not any(c.startswith("get") or c.startswith("ref") for c in m[2])]
         for (ln, ev, comps) in mism[:5]:
             e = lines[ln - 1]
             rp = os.path.join(vlib.ROOT, "replays", f"{self.prop}-lin-{vlib.sha(json.dumps(e, sort_keys=True))}.json")
             json.dump({"property": self.prop, "family": self.FAMILY, "seed": ctx.seed, "components": comps, "history": e}, open(rp, "w"), indent=1)
             if ev == "linget":
                 res.violations.append({"replay": rp, "what": f"Get while an installed {e['kind']} entry was being replaced {e['replaces']} times: {e['missing']} of {e['gets']} Gets did not return it, {e['dup']} returned it twice ({comps})"})
+                continue
+            if ev == "linref":
+                res.violations.append({"replay": rp, "what": f"DELETE of a referenced {e['what']} was answered OK while the entry referring to it was being re-sent ({e['deletes']} DELETEs, {e['replaces']} replaces): {comps}"})
                 continue
             what = ("a Flush of %s interleaved with concurrent installs: no order of the acknowledged calls that respects real time folds to the installed entries %s"
                     % (e["flushNIs"], e.get("final"))) if "notLinearizable" in comps else f"concurrent Flush / install scenario did not complete: {comps}"
@@ -1530,7 +1535,8 @@ class LinFamily:
             "rule": ("one case = one concurrent history of the real rib package: a Flush of 2-3 network instances paused at its first removal in a chosen instance "
                      "while 1-2 adder goroutines install next-hops in chosen instances, every call stamped at invocation and return; non-trivial = "
                      "at least one install was acknowledged while the Flush was paused; plus five Get-vs-replace scenarios (an installed IPv4 / IPv6 / "
-                     "MPLS / group / next-hop entry replaced 400 times while Gets run back to back: every Get must return it exactly once)"),
+                     "MPLS / group / next-hop entry replaced 400 times while Gets run back to back: every Get must return it exactly once) and two "
+                     "delete-vs-replace scenarios (a group / prefix re-sent 400 times while the next-hops / group it refers to are DELETEd: every DELETE must be FAILED)"),
             "samples": [lines[0]] if lines else [["none"]], "driver": info, "model_checking": mcs,
         }
         res.assumptions = ["the pause of the Flush is produced by blocking the post-change hook for 15 ms; the verdict is taken from the stamped history, never from timing"]
@@ -1540,7 +1546,7 @@ class LinFamily:
         raise Infra("concurrent histories are re-recorded by re-running the check")
 
 
-for _p in ("C01", "C08", "C07"):
+for _p in ("C01", "C08", "C07", "C03"):
     _old = REGISTRY[_p]
     REGISTRY[_p] = CompositeFamily(_p, (_old.parts if isinstance(_old, CompositeFamily) else [_old]) + [LinFamily(_p)])
 
